@@ -533,11 +533,14 @@ def _struct_same(a, b):
 
 def gen_protocol_ok(start, stores, final_mem):
     """the documented protocol on one natively observed write: stores = [(value, generation in memory right before)]"""
-    if len(stores) != 2:
+    if len(stores) < 1:
         return False
-    (a, m1), (b, m2) = stores
+    vals = [v for v, mm in stores]
+    b = vals[-1]
+    mids = vals[:-1]
+    a = mids[-1] if mids else start          # what the segment shows right before the final store
     return (a % 2 == 1 and b % 2 == 0 and b != 0 and b != start and (a == start + 1 if start % 2 == 0 else a == start)
-            and (b == 2 if a == 65535 else b == a + 1) and m1 == start and m2 == a and final_mem == b)
+            and (b == 2 if a == 65535 else b == a + 1) and stores[0][1] == start and all(v % 2 == 1 for v in mids) and final_mem == b)
 
 
 def native_writegen(rp, g0, n):
@@ -589,56 +592,76 @@ def value_protocol(ck, P, pr, tier):
             ex2 = P.new_exec()
             S = summarise(ex2, wr, [Ref(0, 'w'), Ref(0, 'rec')], st, watch_mem=[(0, 'w')])
             pr.add(ex2.side)
-            if S.head is not None or len(S.prefix) != 1:
-                ck.inconclusive.append('%s: write #%d has %d event skeletons%s: the value protocol is stated for one' % (tag, k, len(S.prefix), ' and a loop' if S.head is not None else ''))
+            if S.head is not None:
+                ck.inconclusive.append('%s: write #%d contains a loop: the value protocol is stated for loop-free updates' % (tag, k))
                 return False
-            grp = S.prefix[0]
-            evs = grp.events
-            sts = [e for e in evs if e.kind == 'store' and (e.args[1], e.args[2]) == gen_loc]
-            wrs = [e for e in evs if e.kind == 'write']
-            order = [e.kind for e in evs]
-            if not (len(sts) == 2 and len(wrs) == 1 and evs.index(sts[0]) < evs.index(wrs[0]) < evs.index(sts[1])):
-                shape_unknown.append((tag, k, order)); break
-            # what the writer's own generation loads return: single writer => the last value it stored (or the start value)
-            pairs = []
-            v1 = v2 = None
-            for e in evs:
-                if e.kind == 'load' and (e.args[1], e.args[2]) == gen_loc:
-                    pairs.append((e.ret, cur if v1 is None else (v1 if v2 is None else v2)))
-                elif e is sts[0]:
-                    v1 = subst(e.info['val'], pairs) if pairs else e.info['val']
-                elif e is sts[1]:
-                    v2 = subst(e.info['val'], pairs) if pairs else e.info['val']
-            guard = subst(grp.guard(), pairs) if pairs else grp.guard()
+            # one or several event skeletons (e.g. an extra store on the wrap path): the protocol is stated on the SEQUENCE of values the
+            # update stores into the generation: v_1 .. v_n (n >= 2), the record written after v_1 and before v_n
             nm = lambda x: '%s, write #%d: %s' % (tag, k, x)
-            clauses = {
-                'every start value is handled (no path is missing)': guard,
-                'in-flight value is odd': v1 % 2 == 1,
-                'in-flight value within u16': z3.And(v1 >= 0, v1 < 65536, v2 >= 0, v2 < 65536),
-                'final value is even': v2 % 2 == 0,
-                'final value is never 0': v2 != 0,
-                'final value differs from the value the segment held before the update': v2 != cur,
-                'from an even start the in-flight value is start+1': z3.Implies(cur % 2 == 0, v1 == cur + 1),
-                'from an odd start (crashed writer) the update continues under that value': z3.Implies(cur % 2 == 1, v1 == cur),
-                'final = in-flight + 1, except at the wrap where it continues at 2': z3.If(v1 == 65535, v2 == 2, v2 == v1 + 1),
-                'from 0 (fresh wipe): 1 then 2': z3.Implies(cur == 0, z3.And(v1 == 1, v2 == 2)),
-                'wrap: 0xFFFE and 0xFFFF both end at 2': z3.Implies(cur >= 65534, v2 == 2),
-                'inductive: post-state is a valid idle state (even, non-zero)': z3.And(v2 % 2 == 0, v2 != 0),
-            }
-            for name, cl in clauses.items():
-                res = pr.prove(nm(name), T, cl, need_reach=False)
-                if isinstance(res, tuple):
-                    fails.append((nm(name), 0 if wiped else mval(res[1], g), k))
-            # the writer object after the call (its private state, if it has any)
+            guards = []
             after = None
-            for a in grp.alts:
-                m = a.mem.get((0, 'w'))
-                m = subst(m, pairs) if pairs else m
-                after = m if after is None else vite(a.guard if not pairs else subst(a.guard, pairs), m, after)
+            finals = []
+            bad_shape = None
+            for gi, grp in enumerate(S.prefix):
+                evs = grp.events
+                sts = [e for e in evs if e.kind == 'store' and (e.args[1], e.args[2]) == gen_loc]
+                wrs = [e for e in evs if e.kind == 'write']
+                order = [e.kind for e in evs]
+                if not (len(sts) >= 1 and len(wrs) == 1 and evs.index(wrs[0]) < evs.index(sts[-1])):
+                    bad_shape = (tag, k, order); break
+                # what the writer's own generation loads return: single writer => the last value it stored (or the start value)
+                pairs = []
+                vals = []
+                for e in evs:
+                    if e.kind == 'load' and (e.args[1], e.args[2]) == gen_loc:
+                        pairs.append((e.ret, vals[-1] if vals else cur))
+                    elif e in sts:
+                        vals.append(subst(e.info['val'], pairs) if pairs else e.info['val'])
+                guard = subst(grp.guard(), pairs) if pairs else grp.guard()
+                guards.append(guard)
+                wpos = len([e for e in sts if evs.index(e) < evs.index(wrs[0])])       # stores before the record write
+                # the generation the segment shows while the record is being written (after `wpos` stores; the start value if none)
+                v1 = vals[wpos - 1] if wpos else cur
+                vn = vals[-1]
+                mid = vals[:-1]
+                clauses = {
+                    'in-flight value is odd': v1 % 2 == 1,
+                    'values within u16': z3.And(*[z3.And(v >= 0, v < 65536) for v in vals]),
+                    'final value is even': vn % 2 == 0,
+                    'final value is never 0': vn != 0,
+                    'final value differs from the value the segment held before the update': vn != cur,
+                    'from an even start the in-flight value is start+1': z3.Implies(cur % 2 == 0, v1 == cur + 1),
+                    'from an odd start (crashed writer) the update continues under that value': z3.Implies(cur % 2 == 1, v1 == cur),
+                    'final = in-flight + 1, except at the wrap where it continues at 2': z3.If(v1 == 65535, vn == 2, vn == v1 + 1),
+                    'from 0 (fresh wipe): 1 then 2': z3.Implies(cur == 0, z3.And(v1 == 1, vn == 2)),
+                    'wrap: 0xFFFE and 0xFFFF both end at 2': z3.Implies(cur >= 65534, vn == 2),
+                    'inductive: post-state is a valid idle state (even, non-zero)': z3.And(vn % 2 == 0, vn != 0),
+                }
+                if mid:
+                    clauses['every value stored before the final one is odd and non-zero (the generation never shows an even value, nor 0, during the update)'] = z3.And(*[z3.And(v % 2 == 1) for v in mid])
+                for name, cl in clauses.items():
+                    res = pr.prove(nm(name) + (' [path %d]' % gi if len(S.prefix) > 1 else ''), guard, cl, need_reach=False)
+                    if isinstance(res, tuple):
+                        fails.append((nm(name), 0 if wiped else mval(res[1], g), k))
+                # the writer object after the call (its private state, if it has any)
+                for a_ in grp.alts:
+                    m_ = a_.mem.get((0, 'w'))
+                    m_ = subst(m_, pairs) if pairs else m_
+                    c_ = z3.And(guard, a_.guard if not pairs else subst(a_.guard, pairs))
+                    after = m_ if after is None else vite(c_, m_, after)
+                finals.append((guard, vn))
+            if bad_shape:
+                shape_unknown.append(bad_shape); break
+            res = pr.prove(nm('every start value is handled (no path is missing)'), T, z3.Or(guards), need_reach=False)
+            if isinstance(res, tuple):
+                fails.append((nm('every start value is handled'), 0 if wiped else mval(res[1], g), k))
             stateless = _struct_same(after, obj)
             K = max(K, k)
             if stateless:
                 break
+            v2 = finals[-1][1]
+            for gd, vv in reversed(finals[:-1]):
+                v2 = z3.If(gd, vv, v2)
             obj = after; cur = v2
         ck.cov.setdefault('writer_objects', []).append({'constructor_path': tag, 'writer_has_private_generation_state': (None if stateless is None else not stateless),
                                                         'writes_chained': k})
